@@ -13,7 +13,10 @@ import (
 )
 
 func init() {
-	generators["C13"] = genC13
+	generators["C13"] = func(tier, out string, sum *Summary) {
+		runPrecision(sum, "beyond-float-precision")
+		genC13(tier, out, sum)
+	}
 	generators["C16"] = genC16
 }
 
@@ -295,6 +298,18 @@ func genC13(tier, out string, sum *Summary) {
 			}
 		}
 	}
+	// an inadmissible key on an early element and a key expression that fails on a later one: the elements are taken in
+	// order, so the first fault is the outcome (the model decides which)
+	for _, f := range []string{"sort_by", "max_by", "min_by"} {
+		for _, ke := range []string{"(k || `1` / `0`)", "(k || pad_left('x', `-1`))", "(k || $undef)", "(k && abs('x'))", "(!k && $undef || k)", "k"} {
+			for _, d := range []string{`[{"k": true}, {"k": false}]`, `[{"k": 1}, {"k": "a"}, {"k": false}]`, `[{"k": "a"}, {"k": 1}, {"k": null}]`, `[{"k": false}, {"k": true}]`, `[{"k": 1}, {"k": true}, {"k": false}]`, `[{"k": null}, {"k": 1}]`, `[{"k": 1}, {"k": 2}, {"k": false}]`} {
+				e := f + "(@, &" + ke + ")"
+				o := search(e, jsonDoc(d))
+				sum.count("two-key-faults/" + o.Kind)
+				emit(e, jsonDoc(d), o)
+			}
+		}
+	}
 	// the key expression fails on the first, a middle or the last element: the error is the outcome
 	for _, af := range argFaultFamily() {
 		if af.doc != nil || strings.HasPrefix(af.fn, "sort") || strings.HasPrefix(af.fn, "max") || strings.HasPrefix(af.fn, "min") {
@@ -480,6 +495,20 @@ func genC16(tier, out string, sum *Summary) {
 		sh.Add(fmt.Sprintf("BC %d %s %s %s %s", id, hx(expr), coqValue(doc), hasEnumText(expr), coqObs(o)))
 		sum.Index[strconv.Itoa(id)] = map[string]any{"expr": expr, "doc": toJSON(doc), "observed": obsJSON(o)}
 	})
+	// a quoted identifier is ONE name wherever it stands: after a field, a parenthesis, an index, a pipe
+	for _, name := range []string{"x.y", ".", "a.b.c", "1.5", "x[0]", "a b", "x|y", "*", "@", "$", "x.y.z", "..", "a.", ".a", "[0]", "x,y", "a:b"} {
+		q := quotedIdent(name)
+		doc := map[string]any{"a": map[string]any{name: json.Number("4"), "x": map[string]any{"y": json.Number("9"), "y.z": json.Number("8")}, "b": map[string]any{name: json.Number("5")}}, "x": map[string]any{"y": json.Number("7")}, name: json.Number("6")}
+		run("a."+q, doc, json.Number("4"), "quoted-after-field")
+		run("a.b."+q, doc, json.Number("5"), "quoted-after-field")
+		run("\"a\"."+q, doc, json.Number("4"), "quoted-after-field")
+		run("(a)."+q, doc, json.Number("4"), "quoted-after-field")
+		run("[a][0]."+q, doc, json.Number("4"), "quoted-after-field")
+		run("a | "+q, doc, json.Number("4"), "quoted-after-field")
+		run(q, doc, json.Number("6"), "quoted-after-field")
+		run("@."+q, doc, json.Number("6"), "quoted-after-field")
+		run("a.\"b\"."+q, doc, json.Number("5"), "quoted-after-field")
+	}
 	// numbers between backticks in every spelling, bare and padded with the white space JSON allows on either
 	// side, alone and inside containers: the value, and the digits as to_string shows them
 	for _, num := range []string{"0", "-0", "1", "-1", "7", "10", "1.0", "1.50", "-0.10e+2", "1e2", "1E-2", "15e-1", "0.000", "123456789012345678901234567890.5", "1e400", "-2.5e-3", "9223372036854775808"} {
